@@ -259,8 +259,27 @@ for _pn, (_side, _pre, _suf) in LINE_POSITIONS.items():
 
 ONE_TX_SUFFIX = ('req_pipelined', 'req_pipelined_keep', 'req_http09_junk')
 
+# ---- exchange families: k complete request/response exchanges on one keep-alive connection, every one of which makes the parser
+# log something (default log level), under the three ways a finished transaction is disposed of - by the parser (tx_auto_destroy),
+# by the application between calls (htp_tx_destroy + htp_connp_tx_freed), or not before the connection is destroyed.  Work per
+# exchange must not grow with the number of earlier exchanges or of the messages they left behind (seeded change C08-9).
+EXCH_UNITS = {
+    'clean': (b'GET /%d HTTP/1.1\r\nHost: h\r\n\r\n', b'HTTP/1.1 200 OK\r\nContent-Length: 1\r\n\r\nx'),
+    'req_warn': (b'GET /%d HTTP/1.1\r\nHost: h\r\nX-A: 1\r\nX-A: 2\r\nX-A: 3\r\n\r\n', b'HTTP/1.1 200 OK\r\nContent-Length: 1\r\n\r\nx'),
+    'res_warn': (b'GET /%d HTTP/1.1\r\nHost: h\r\n\r\n', b'HTTP/1.1 200 OK\r\nX-B: 1\r\nX-B: 2\r\nX-B: 3\r\nContent-Length: 1\r\n\r\nx'),
+    'post_params': (b'POST /%d?a=1 HTTP/1.1\r\nHost: h\r\nContent-Type: application/x-www-form-urlencoded\r\nContent-Length: 3\r\n\r\nb=2', b'HTTP/1.1 204 No Content\r\n\r\n'),
+}
+EXCH_FAMILIES = []
+for _un, (_rq, _rs) in sorted(EXCH_UNITS.items()):
+    for _dn, _dc in (('auto', {'AUTO_DESTROY': 1}), ('app', {'AUTO_DESTROY': 0, 'DESTROY_DONE': 1}), ('keep', {'AUTO_DESTROY': 0})):
+        _name = 'exch_%s_%s' % (_un, _dn)
+        FAMILIES[_name] = ('exch', dict(_dc, LOG_LEVEL=-1, URLENC_PARSER=1, MAX_TX=10000000), (_rq, _rs))
+        EXCH_FAMILIES.append(_name)
+
 
 def make_stream(fam, k):
+    if fam[0] == 'exch':
+        return b''.join(fam[2][0] % i + fam[2][1] for i in range(k))
     return fam[2](k)
 
 
@@ -268,6 +287,20 @@ def make_case(name, k, delivery):
     fam = FAMILIES[name]
     side, cfg = fam[0], fam[1]
     stream = make_stream(fam, k)
+    if side == 'exch':
+        rq, rs = fam[2]
+        if delivery == 'whole':
+            # all requests pipelined in one call, then all responses in one call
+            ops = [(REQ, b''.join(rq % i for i in range(k))), (RES, rs * k)]
+        else:
+            # keep-alive: one exchange after the other
+            ops = []
+            for i in range(k):
+                ops += [(REQ, rq % i), (RES, rs)]
+        ops.append((CLOSE, None))
+        c = {'LOG_LEVEL': 0}
+        c.update(cfg)
+        return c, ops, len(stream)
     kind = REQ if side == 'req' else RES
     if delivery == 'whole':
         chunks = [stream]
@@ -297,7 +330,7 @@ def run(tier):
     ladder = [256, 512, 1024, 2048, 4096] if tier == 'quick' else [256, 512, 1024, 2048, 4096, 8192, 16384, 32768, 65536]
     jobs = []
     for name in sorted(FAMILIES):
-        for delivery in (('whole', 'kilo') if name.startswith('hv_') else ('whole', 'bytes', 'kilo')):
+        for delivery in (('whole', 'kilo') if name.startswith('hv_') or name.startswith('exch_') else ('whole', 'bytes', 'kilo')):
             lad = ladder if delivery != 'bytes' else ladder[:5 if tier == 'quick' else 7]
             jobs.append((name, delivery, lad))
     nsh = fw.NPROC
@@ -355,4 +388,4 @@ def run(tier):
                    'memchr/memcmp/realloc: deterministic, no timing. The allowance of a run is the bytes offered plus, summed over the data calls, the bytes the parser had already set aside (in_buf/out_buf/pending folded header) when the call was made. Verdict: the marginal cost per allowed byte between consecutive ladder points (constant for linear work, doubling for quadratic work; fixed costs cancel) grows >= 1.3x on each of the two largest doublings.' % (len(FAMILIES), ladder),
            'samples': [{'family': n, 'stream_k2': make_stream(FAMILIES[n], 2).decode('latin-1')[:400]} for n in sorted(FAMILIES)[:8]], 'ladder': ladder, 'families': table}
     return v.finish(cov, assumptions=['harness callbacks are not instrumented; their memcpy traffic (linear) is included in the byte count', 'the maximum work/byte seen by a coverage-guided fuzzer is not part of this check'],
-                    min_obs={'families': (len(costs), len(FAMILIES) * 3 - len(HV_FAMILIES) - 2)})
+                    min_obs={'families': (len(costs), len(FAMILIES) * 3 - len(HV_FAMILIES) - len(EXCH_FAMILIES) - 2)})
